@@ -177,7 +177,7 @@ func (r *Report) SetExtra(k string, v any) { r.mu.Lock(); r.Extra[k] = v; r.mu.U
 func (r *Report) Write(path string) error {
 	r.mu.Lock()
 	defer r.mu.Unlock()
-	r.DistinctKeys = r.DistinctKeys[:0]
+	r.DistinctKeys = make([]string, 0, len(r.distinct))
 	for k := range r.distinct {
 		r.DistinctKeys = append(r.DistinctKeys, k)
 	}
